@@ -60,8 +60,15 @@ pub fn mutate(r: &mut StdRng, mut h: Vec<u8>) -> Vec<u8> {
     if r.gen_range(0..6) == 0 {
         let ends: Vec<usize> = h.windows(2).enumerate().filter(|(_, w)| w == b"\r\n").map(|(i, _)| i).collect();
         if let Some(&i) = ends.choose(r) {
-            let b = *b"\r\r\n \t".choose(r).unwrap();
-            let at = if r.gen_bool(0.7) { i } else { i + 2 };
+            // ... or a byte that some "trim" helper may take for white space: FF, VT, NUL, US, DEL, NEL / NBSP lead bytes
+            let b = *b"\r\r\n \t\x0c\x0b\x00\x1f\x7f\x85\xa0".choose(r).unwrap();
+            // before the CRLF (the end of a value), after it (the start of the next line), or after the line's colon
+            let colon = h[i + 2..].iter().position(|x| *x == b':').map(|p| i + 2 + p + 1);
+            let at = match r.gen_range(0..10) {
+                0..=4 => i,
+                5..=6 => i + 2,
+                _ => colon.unwrap_or(i),
+            };
             h.insert(at.min(h.len()), b);
             if r.gen_bool(0.7) {
                 return h;
@@ -69,7 +76,7 @@ pub fn mutate(r: &mut StdRng, mut h: Vec<u8>) -> Vec<u8> {
         }
     }
     for _ in 0..r.gen_range(1..=2) {
-        let pool: &[u8] = b"\r\n \t:/?%#\\\x00\x7f\x80\xff\"{a1.";
+        let pool: &[u8] = b"\r\n \t:/?%#\\\x00\x7f\x80\xff\"{a1.\x0c\x0b\x1f[]";
         let b = if r.gen_bool(0.7) { *pool.choose(r).unwrap() } else { r.gen() };
         let i = r.gen_range(0..h.len());
         match r.gen_range(0..3) {
